@@ -30,7 +30,7 @@ namespace XERCES_CPP_NAMESPACE {
 // ---------------------------------------------------------------------------
 //  constants
 // ---------------------------------------------------------------------------
-static const int BASELENGTH = 255;
+static const int BASELENGTH = 256;
 static const int FOURBYTE   = 4;
 
 // ---------------------------------------------------------------------------
@@ -76,7 +76,7 @@ const XMLByte Base64::base64Inverse[BASELENGTH] =
     0xFF, 0xFF, 0xFF, 0xFF, 0xFF, 0xFF, 0xFF, 0xFF, 0xFF, 0xFF, 0xFF, 0xFF, 0xFF, 0xFF, 0xFF, 0xFF,
     0xFF, 0xFF, 0xFF, 0xFF, 0xFF, 0xFF, 0xFF, 0xFF, 0xFF, 0xFF, 0xFF, 0xFF, 0xFF, 0xFF, 0xFF, 0xFF,
     0xFF, 0xFF, 0xFF, 0xFF, 0xFF, 0xFF, 0xFF, 0xFF, 0xFF, 0xFF, 0xFF, 0xFF, 0xFF, 0xFF, 0xFF, 0xFF,
-    0xFF, 0xFF, 0xFF, 0xFF, 0xFF, 0xFF, 0xFF, 0xFF, 0xFF, 0xFF, 0xFF, 0xFF, 0xFF, 0xFF, 0xFF
+    0xFF, 0xFF, 0xFF, 0xFF, 0xFF, 0xFF, 0xFF, 0xFF, 0xFF, 0xFF, 0xFF, 0xFF, 0xFF, 0xFF, 0xFF, 0xFF
 };
 
 const XMLByte Base64::base64Padding = chEqual;
@@ -306,7 +306,13 @@ XMLByte* Base64::decodeToXMLByte(const XMLCh*         const   inputData
     ArrayJanitor<XMLByte> janFill(dataInByte, memMgr ? memMgr : XMLPlatformUtils::fgMemoryManager);
 
     for (XMLSize_t i = 0; i < srcLen; i++)
+    {
+        // a character outside of Latin-1 is never base64 data: do not let the
+        // narrowing below turn it into one (or into a terminator)
+        if (inputData[i] > 0xFF)
+            return 0;
         dataInByte[i] = (XMLByte)inputData[i];
+    }
 
     dataInByte[srcLen] = 0;
 
@@ -342,7 +348,13 @@ XMLCh* Base64::getCanonicalRepresentation(const XMLCh*         const   inputData
     ArrayJanitor<XMLByte> janFill(dataInByte, memMgr ? memMgr : XMLPlatformUtils::fgMemoryManager);
 
     for (XMLSize_t i = 0; i < srcLen; i++)
+    {
+        // a character outside of Latin-1 is never base64 data: do not let the
+        // narrowing below turn it into one (or into a terminator)
+        if (inputData[i] > 0xFF)
+            return 0;
         dataInByte[i] = (XMLByte)inputData[i];
+    }
 
     dataInByte[srcLen] = 0;
 
